@@ -26,7 +26,12 @@ pub struct TirGen<'a> {
 const MAX_SET: usize = 1;
 
 fn some_bytes(t: &mut Tape) -> Vec<u8> {
-    let n = *t.pick(&[28usize, 0, 1, 4, 29, 32, 57, 64]);
+    // now and then a byte string longer than any decoder scratch buffer (scripts, big datums)
+    let n = if t.chance(1, 40) {
+        *t.pick(&[4097usize, 4096, 5000, 70_000])
+    } else {
+        *t.pick(&[28usize, 0, 1, 4, 29, 32, 57, 64])
+    };
     (0..n).map(|i| (i as u8).wrapping_mul(7).wrapping_add(t.draw(4) as u8)).collect()
 }
 
@@ -109,7 +114,12 @@ impl<'a> TirGen<'a> {
             Type::List => "list",
             _ => "custom",
         };
-        format!("p_{}{}", tag, self.t.draw(3))
+        // an IR a client sends is not bound to the lower-case names the tx3 front end emits
+        match self.t.draw(4) {
+            0 => format!("P_{}{}", tag.to_uppercase(), self.t.draw(3)),
+            1 => format!("p{}{}", tag[..1].to_uppercase() + &tag[1..], self.t.draw(3)),
+            _ => format!("p_{}{}", tag, self.t.draw(3)),
+        }
     }
 
     fn input_param(&mut self, name: String, depth: u32) -> Expression {
